@@ -841,7 +841,7 @@ func parseExeHeader(src []byte, magic uint, arch, codeStart, codeEnd *int) bool 
 					for i := 0; i < nbEntries; i++ {
 						startEntry := posSection + i*szEntry
 
-						if startEntry+0x28 >= count {
+						if startEntry < 0 || startEntry+0x28 >= count {
 							return false
 						}
 
@@ -896,7 +896,7 @@ func parseExeHeader(src []byte, magic uint, arch, codeStart, codeEnd *int) bool 
 					for i := 0; i < nbEntries; i++ {
 						startEntry := posSection + i*szEntry
 
-						if startEntry+0x28 >= count {
+						if startEntry < 0 || startEntry+0x28 >= count {
 							return false
 						}
 
